@@ -136,4 +136,16 @@ CHECKS = {
         runs=[dict(engine="mdnssim", test="TestC16", quick=dict(checks=20000, shards=4, timeout=600),
                    thorough=dict(checks=800000, shards=16, timeout=3000))],
     ),
+    "C17": dict(
+        level="exploration",
+        rule=("rapid-generated resolver histories (1-30 add / add-again / remove events over 5 services and 7 addresses incl. IPv6 link-local and "
+              "duplicates, records with a missing or invalid mandatory field, the local SKI, removes of unknown services), delivered in "
+              "bursts without yielding or separated by quiescence, GOMAXPROCS 1/2/16; real MdnsManager (fake provider) reporting into a real "
+              "hub.Hub. Oracle: reference model map ski -> (fields of the first valid add, ordered usable address set); the manager's "
+              "entries equal the model after every event and the last VisibleRemoteServicesUpdated list equals the final set. "
+              "non-trivial = >= 3 state changes and at least one remove; distinct = hash of the event sequence"),
+        runs=[dict(engine="mdnssim", test="TestC17", quick=dict(checks=20000, shards=4, timeout=600),
+                   thorough=dict(checks=600000, shards=16, timeout=3000))],
+        assumptions=["removes with invalid TXT for a known service are not generated (neither provider produces them; the statement leaves them open)"],
+    ),
 }
